@@ -1,3 +1,4 @@
+// @READY (registered in vf/props.py)
 // appended to src/common/alccodec/alcraptor.rs (scratch copy only) -- RFC 5053 section 3.2 (FEC Encoding ID 1, Raptor)
 #[cfg(any(kani, test))]
 #[allow(dead_code, unused_imports, unused_macros)]
